@@ -52,124 +52,204 @@ def sr1(ctx, R):
     nso = prog.func("tdms_segment.TdmsSegment._new_segment_object")
     rri = prog.func("daqmx.DaqmxSegmentObject.read_raw_data_index")
 
-    def header_set(fi):
+    def header_values(fi):
+        """values of the container a header is tested against with in / not in: a tuple of constants, or the keys of a module dict"""
         for n in walk_body(fi.node):
-            if isinstance(n, ast.Compare) and isinstance(n.ops[0], (ast.In, ast.NotIn)) and isinstance(n.comparators[0], ast.Tuple):
-                return sorted(dotted(e) for e in n.comparators[0].elts)
+            if isinstance(n, ast.Compare) and len(n.ops) == 1 and isinstance(n.ops[0], (ast.In, ast.NotIn)):
+                cont = n.comparators[0]
+                if isinstance(cont, (ast.Tuple, ast.List, ast.Set)):
+                    vals = [prog.try_fold(e, fi.module, default=None) for e in cont.elts]
+                    if all(isinstance(v, int) for v in vals):
+                        return sorted(vals)
+                if isinstance(cont, (ast.Name, ast.Attribute)):
+                    r = prog.resolve_expr(fi.module, cont)
+                    d = None
+                    if r and r[0] == "const" and isinstance(r[1], ast.Dict):
+                        d, dm = r[1], (r[2] if len(r) > 2 else fi.module)
+                    elif isinstance(cont, ast.Name) and isinstance(fi.module.assigns.get(cont.id), ast.Dict):
+                        d, dm = fi.module.assigns[cont.id], fi.module
+                    if d is not None:
+                        vals = [prog.try_fold(k, dm, default=None) for k in d.keys]
+                        if all(isinstance(v, int) for v in vals):
+                            return sorted(vals)
         return None
-    a, b = header_set(nso), header_set(rri)
-    R.check(a == b == sorted(keys), "daqmx::index header sets", nso.where(), "segment object factory, DAQmx index parser and scaler registry accept %s" % sorted(keys),
-            "the sets of DAQmx raw-data-index headers disagree: factory %s, parser %s, registry %s" % (a, b, sorted(keys)))
+    regvals = sorted(v for v in (prog.try_fold(k, mod, default=None) for k in reg.keys) if isinstance(v, int))
+    a, b = header_values(nso), header_values(rri)
+    if a is None or b is None:
+        R.undecided("daqmx::index header sets", nso.where(), "header membership test not understood (factory %s, parser %s)" % (a, b))
+    else:
+        R.check(a == b == regvals, "daqmx::index header sets", nso.where(), "segment object factory, DAQmx index parser and scaler registry accept %s" % [hex(v) for v in regvals],
+                "the sets of DAQmx raw-data-index headers disagree: factory %s, parser %s, registry %s" % (a, b, regvals))
     vals = {k: prog.try_fold(mod.assigns.get(k), mod) for k in keys if k in mod.assigns}
     R.check(vals == {"FORMAT_CHANGING_SCALER": 0x1269, "DIGITAL_LINE_SCALER": 0x126A}, "daqmx::header constants", "%s:1" % mod.relpath, "0x1269 / 0x126A",
             "DAQmx index header constants are %s" % vals)
+    # one scaler object per vector entry, built by the class the registry gives for the index header
+    from .sym import Sym, show, alpha
+    from .sem import match, W, find
     mm = prog.func("daqmx.DaqMxMetadata.__init__")
-    t = unparse(mm.node)
-    R.check("_scaler_classes[scaler_type]" in t and "scaler_class(f, endianness)" in t and "range(scaler_vector_length)" in t, "daqmx.DaqMxMetadata.__init__::scalers", mm.where(),
-            "one scaler object per vector entry, class chosen by the index header", "scaler vector is not parsed with the class registered for the header")
-
-
-@rule("TR1", "buffer dimensions flow as (length, width) pairs and scaler values are the byte columns [offset, offset+size) of their own buffer", floor=6)
-def tr1(ctx, R):
-    prog = ctx.prog
-    gbd = prog.func("daqmx.get_buffer_dimensions")
-    t = unparse(gbd.node)
-    R.check("[(0, w) for w in raw_data_widths]" in t and "max(current_buffer_shape[0], o.number_values)" in t and "(updated_num_values, current_buffer_shape[1])" in t,
-            "daqmx.get_buffer_dimensions::(length, width)", gbd.where(), "position 0 = number of rows (max over objects using the buffer), position 1 = width",
-            "buffer dimension pairs are no longer (number of values, width)")
-    # consumers
-    mod = prog.module("daqmx")
-    for fi in sorted((f for f in prog.functions.values() if f.module is mod), key=lambda f: f.qual):
-        # names bound by destructuring an element of get_buffer_dimensions(...)
-        pairs = []     # (length name, width name)
-        dims_names = {d for d in ("buffer_dims",) if _defs(fi, d) and any(isinstance(v, ast.Call) and call_name(v) == "get_buffer_dimensions" for v in _defs(fi, d))}
-        for n in ast.walk(fi.node):
-            it = tgt = None
-            if isinstance(n, (ast.For, ast.comprehension)):
-                it, tgt = n.iter, n.target
-            if it is None:
-                continue
-            src = it
-            inner = tgt
-            if isinstance(it, ast.Call) and call_name(it) == "enumerate" and it.args:
-                src = it.args[0]
-                inner = tgt.elts[1] if isinstance(tgt, ast.Tuple) and len(tgt.elts) == 2 else None
-            is_dims = (isinstance(src, ast.Call) and call_name(src) == "get_buffer_dimensions") or (isinstance(src, ast.Name) and src.id in dims_names)
-            if not is_dims or inner is None:
-                continue
-            if isinstance(inner, ast.Tuple) and len(inner.elts) == 2 and all(isinstance(e, ast.Name) for e in inner.elts):
-                pairs.append((inner.elts[0].id, inner.elts[1].id))
-            elif isinstance(inner, ast.Name):
-                # shape = element; later (a, b) = shape
-                for d in walk_body(fi.node):
-                    if isinstance(d, ast.Assign) and isinstance(d.targets[0], ast.Tuple) and isinstance(d.value, ast.Name) and d.value.id == inner.id \
-                            and len(d.targets[0].elts) == 2:
-                        pairs.append((d.targets[0].elts[0].id, d.targets[0].elts[1].id))
-        for c in walk_body(fi.node):
-            if isinstance(c, ast.Call) and call_name(c) == "read_interleaved_segment_bytes" and len(c.args) >= 3:
-                w, n_ = dotted(c.args[1]), dotted(c.args[2])
-                ok = any(n_ == ln and w == wd for ln, wd in pairs)
-                R.check(ok, "%s::read_interleaved_segment_bytes(%s, %s)" % (fi.qual, w, n_), fi.where(c),
-                        "rows x bytes-per-row are the length and width of one buffer",
-                        "a raw buffer is read with bytes_per_row=`%s` and num_values=`%s`, which are not the (length, width) pair of one acquisition buffer from "
-                        "get_buffer_dimensions (swapped, or the row count of another buffer / of the channel): with buffers of differing lengths or "
-                        "widths the bytes are attributed to the wrong rows" % (unparse(c.args[1]), unparse(c.args[2])))
-            if isinstance(c, ast.Call) and isinstance(c.func, ast.Attribute) and c.func.attr == "seek" and len(c.args) == 2 and dotted(c.args[1]) == "os.SEEK_CUR":
-                dist = c.args[0]
-                names = {x.id for x in ast.walk(dist) if isinstance(x, ast.Name)}
-                ok = any({ln, wd} <= names for ln, wd in pairs)
-                R.check(ok, "%s::seek(%s)" % (fi.qual, unparse(dist)[:40]), fi.where(c), "skips length x width of one buffer",
-                        "a raw buffer is skipped by `%s` bytes, which is not the length x width of that buffer from get_buffer_dimensions" % unparse(dist))
-        for n in ast.walk(fi.node):
-            if isinstance(n, ast.BinOp) and isinstance(n.op, ast.Mult) and pairs:
-                names = {x.id for x in ast.walk(n) if isinstance(x, ast.Name)}
-                for ln, wd in pairs:
-                    if wd in names and ln not in names and not (names - {wd}) <= set():
-                        other = names - {wd}
-                        if other and fi.name != "get_buffer_dimensions" and all(o not in (p[0] for p in pairs) for o in other) \
-                                and isinstance(n.left, ast.Name) and isinstance(n.right, ast.Name):
-                            R.violation("%s::%s" % (fi.qual, unparse(n)), fi.where(n), "a buffer width is multiplied by `%s`, not by the length of the same buffer" % ", ".join(sorted(other)))
-    # column selection in the data reader
-    rd = None
-    for q in ("daqmx.DaqmxDataReader._read_data_chunk", "daqmx.DaqmxDataReader._read_object_scalers"):
-        if q in prog.functions and any(isinstance(c, ast.Call) and isinstance(c.func, ast.Attribute) and c.func.attr == "postprocess_data" for c in walk_body(prog.functions[q].node)):
-            rd = prog.functions[q]
-    if rd is None:
-        raise AnchorMissing("daqmx.DaqmxDataReader: postprocess_data call")
-    pp = [c for c in walk_body(rd.node) if isinstance(c, ast.Call) and isinstance(c.func, ast.Attribute) and c.func.attr == "postprocess_data"][0]
-    x = pp.args[0].id if pp.args and isinstance(pp.args[0], ast.Name) else None
-    defs = _defs(rd, x) if x else []
-    bad = []
-    saw_cols = saw_fb = False
-    for d in defs:
-        txt = unparse(d).replace(" ", "")
-        if txt == "combined_data[:,byte_columns].ravel()":
-            saw_cols = True
-        elif isinstance(d, ast.Call) and isinstance(d.func, ast.Attribute) and d.func.attr == "from_bytes" and d.args and dotted(d.args[0]) == x:
-            saw_fb = True
+    sy = Sym(prog, mm, mm.cls)
+    env = sy.env_at_end()
+    val = env.get("self.scalers")
+    key = "daqmx.DaqMxMetadata.__init__::scalers"
+    if val is None:
+        raise AnchorMissing("daqmx.DaqMxMetadata.__init__: store of self.scalers")
+    m = match(("comp", ("callv", ("sub", W("reg"), W("hdr")), W("args"), W()), W("bv"), ("call", "range", (W("n"),), ()), ()), val)
+    if m is None:
+        if val[0] == "comp" or find(val, ("callv", W(), W(), W())):
+            R.violation(key, mm.where(), "scaler vector is not parsed with the class registered for the header: `%s`" % show(alpha(val))[:200])
         else:
-            bad.append(d)
-    key = "%s::scaler values = byte columns" % rd.qual
-    if bad:
-        R.violation(key, rd.where(bad[0]), "scaler values can also be produced by `%s`, which does not select the byte columns [byte_offset, byte_offset + size) "
-                    "of each row of the scaler's buffer: stride or offset differ when the buffer width is not a multiple of the type size" % unparse(bad[0])[:90])
+            R.undecided(key, mm.where(), "scaler list `%s` not understood" % show(alpha(val))[:160])
     else:
-        R.check(saw_cols and saw_fb, key, rd.where(pp), "from_bytes(combined_data[:, byte_columns].ravel(), endianness)", "column selection changed")
-    bc = [unparse(d).replace(" ", "") for d in _defs(rd, "byte_columns")]
-    R.check(bc == ["tuple(range(byte_offset,byte_offset+scaler_size))"], "%s::byte_columns" % rd.qual, rd.where(), "columns byte_offset .. byte_offset + size - 1",
-            "byte columns are %s" % bc)
-    R.check([unparse(d) for d in _defs(rd, "byte_offset")] == ["scaler.byte_offset()"] and [unparse(d) for d in _defs(rd, "scaler_size")] == ["scaler.data_type.size"],
-            "%s::offset and size from the scaler" % rd.qual, rd.where(), "scaler.byte_offset(), scaler.data_type.size", "offset/size are not taken from the scaler")
-    # scalers decoded from a buffer are those whose raw_buffer_index is that buffer's position in the enumeration
+        reg_ok = m["reg"] in (("global", "_scaler_classes"), ("name", "_scaler_classes")) or find(m["reg"], ("global", "_scaler_classes"))
+        hdr_ok = m["hdr"][0] == "param"
+        R.check(bool(reg_ok) and hdr_ok and len(m["args"]) == 2, key, mm.where(), "one scaler object per vector entry, class chosen by the index header",
+                "scaler vector is not parsed with the class registered for the header: `%s`" % show(alpha(val))[:200])
+
+
+@rule("TR1", "buffer dimensions flow as (length, width) pairs and scaler values are the byte columns [offset, offset+size) of their own buffer", floor=5)
+def tr1(ctx, R):
+    """(1) Role inference (sa/kinds.py, class Dims): rows, widths and byte counts are inferred for every value of nptdms.daqmx from
+    three seeds; a rows quantity meeting a width is a conflict, reported with the chain of flows.  (2) The value handed to
+    postprocess_data is compared, in normal form, with  data_type.from_bytes(buffer[:, tuple(range(off, off + size))].ravel(), endianness)
+    for the same scaler.  (3) The scalers decoded from a buffer are those whose raw_buffer_index equals the position of that
+    buffer in get_buffer_dimensions' result."""
+    from .kinds import ROWS, WIDTH, BYTES
+    from .sym import Sym, show, alpha
+    from .sem import match, W, find, calls_to
+    from .region import region
+    prog = ctx.prog
+    K = ctx.dims()
+    for c in K.conflicts:
+        chain = K.explain(c.a, c.b)
+        R.violation("daqmx::%s" % c.why[:80], c.where, "a %s quantity meets a %s quantity here (%s): with buffers of differing lengths or widths the bytes are "
+                    "attributed to the wrong rows. Flow: %s" % (K.kind(c.a), K.kind(c.b), c.why, " <- ".join(chain)[:600]), path=chain)
+    gbd = prog.func("daqmx.get_buffer_dimensions")
+    r = K.names.get(("r", gbd.qual))
+    el = K.child(r, "k") if r is not None else None
+    k0, k1 = (K.kind(K.child(el, 0)), K.kind(K.child(el, 1))) if el is not None else (None, None)
+    key = "daqmx.get_buffer_dimensions::(length, width)"
+    if k0 is None or k1 is None:
+        R.undecided(key, gbd.where(), "roles of the pair elements not inferred (%s, %s)" % (k0, k1))
+    else:
+        R.check((k0, k1) == (ROWS, WIDTH), key, gbd.where(), "position 0 = number of rows (max over objects using the buffer), position 1 = width",
+                "buffer dimension pairs are (%s, %s), not (number of values, width)" % (k0, k1))
+    ri = prog.func("base_segment.read_interleaved_segment_bytes")
+    ps = [p for p in ri.params]
+    kinds = [K.kind(K.names.get(("v", ri.qual, p))) for p in ps]
+    key = "base_segment.read_interleaved_segment_bytes::(bytes per row, rows)"
+    if WIDTH not in kinds or ROWS not in kinds:
+        R.undecided(key, ri.where(), "roles of the parameters not inferred: %s" % dict(zip(ps, kinds)))
+    else:
+        R.ok(key, ri.where(), "parameters %s" % dict(zip(ps, kinds)))
+    R.note("role inference: %d functions, %d nodes, %d conflicts" % (len(K.analysed), K.n_nodes, len(K.conflicts)))
+    # (2) column selection
     main = prog.func("daqmx.DaqmxDataReader._read_data_chunk")
-    enum = [n for n in walk_body(main.node) if isinstance(n, ast.For) and isinstance(n.iter, ast.Call) and call_name(n.iter) == "enumerate"
-            and n.iter.args and isinstance(n.iter.args[0], ast.Call) and call_name(n.iter.args[0]) == "get_buffer_dimensions"]
-    idx = enum[0].target.elts[0].id if enum and isinstance(enum[0].target, ast.Tuple) and isinstance(enum[0].target.elts[0], ast.Name) else None
-    filt = "scaler.raw_buffer_index == %s" % idx if idx else None
-    src_all = unparse(main.node) + unparse(rd.node)
-    R.check(bool(enum) and filt is not None and (filt in src_all or "scaler.raw_buffer_index == raw_buffer_index" in src_all),
-            "daqmx.DaqmxDataReader._read_data_chunk::scalers of this buffer", main.where(), "buffers are enumerated from get_buffer_dimensions and scalers filtered by raw_buffer_index",
-            "scalers are not matched to the buffer by raw_buffer_index == position of the buffer")
+    keep = ("base_segment.read_interleaved_segment_bytes", "daqmx.get_buffer_dimensions")
+    sites = []
+    for f in region(ctx, main, depth=2):
+        if f.module.name != "daqmx":
+            continue
+        for c in walk_body(f.node):
+            if isinstance(c, ast.Call) and isinstance(c.func, ast.Attribute) and c.func.attr == "postprocess_data" and c.args:
+                sites.append((f, c))
+    if not sites:
+        raise AnchorMissing("daqmx.DaqmxDataReader: postprocess_data call")
+    for f, c in sites:
+        sy = Sym(prog, f, f.cls, stack=keep)
+        env, guards = sy.env_at(c)
+        S = sy.expr(c.func.value, env)
+        val = sy.expr(c.args[0], env)
+        key = "%s::scaler values = byte columns" % f.qual
+        OFF = ("method", "byte_offset", S, (), ())
+        SIZE = ("attr", ("attr", S, "data_type"), "size")
+        m = match(("method", "from_bytes", ("attr", S, "data_type"), (("method", "ravel", ("sub", W("buf"), ("tuple", (("slice", ("const", None), ("const", None), ("const", None)), W("cols")))), (), ()), W("end")), ()), val)
+        if m is None:
+            if find(val, ("method", "from_bytes", W(), W(), W())) or find(val, ("method", "view", W(), W(), W())) or find(val, ("sub", W(), W())):
+                R.violation(key, f.where(c), "scaler values are produced by `%s`, which does not select the byte columns [byte_offset, byte_offset + size) "
+                            "of each row of the scaler's buffer and decode them with the scaler's type: stride or offset differ when the buffer width is "
+                            "not a multiple of the type size" % show(alpha(val))[:200])
+            else:
+                R.undecided(key, f.where(c), "value handed to postprocess_data not understood: %s" % show(alpha(val))[:160])
+            continue
+        cols = m["cols"]
+        ok_cols = cols in (("call", "tuple", (("call", "range", (OFF, ("binop", "+", (OFF, SIZE))), ()),), ()),
+                           ("call", "tuple", (("call", "range", (OFF, ("binop", "+", (SIZE, OFF))), ()),), ()),
+                           ("call", "list", (("call", "range", (OFF, ("binop", "+", (OFF, SIZE))), ()),), ()),
+                           ("call", "range", (OFF, ("binop", "+", (OFF, SIZE))), ()))
+        R.check(ok_cols, "%s::byte_columns" % f.qual, f.where(c), "columns byte_offset .. byte_offset + size - 1 of the scaler that is post-processed",
+                "byte columns are `%s`" % show(alpha(cols))[:160])
+        buf = m["buf"]
+        from_reader = buf[0] == "call" and buf[1] == keep[0]
+        if buf[0] == "param":
+            # helper: the buffer is what the caller read for the current raw buffer
+            from_reader = False
+            for g in region(ctx, main, depth=2):
+                for cc in calls_to(prog, g, f.qual, g.cls):
+                    sg = Sym(prog, g, g.cls, stack=keep)
+                    e2, _ = sg.env_at(cc)
+                    from .sem import call_arg
+                    a = call_arg(prog, cc, f, buf[1], sg, e2)
+                    if a is not None and a[0] == "call" and a[1] == keep[0]:
+                        from_reader = True
+        R.check(from_reader, "%s::buffer" % f.qual, f.where(c), "columns are taken from the rows read for the current raw buffer",
+                "the bytes decoded do not come from read_interleaved_segment_bytes of the current buffer (`%s`)" % show(alpha(buf))[:100])
+    # (3) scalers decoded from a buffer are those whose raw_buffer_index is that buffer's position
+    sy = Sym(prog, main, main.cls, stack=keep)
+    decode_calls = [c for c in walk_body(main.node) if isinstance(c, ast.Call) and (
+        (isinstance(c.func, ast.Attribute) and c.func.attr == "postprocess_data") or any(c2 is c for f2, c2 in ()) or
+        any(f.qual != main.qual and calls_to(prog, main, f.qual, main.cls) and c in calls_to(prog, main, f.qual, main.cls) for f, _c in sites))]
+    key = "daqmx.DaqmxDataReader._read_data_chunk::scalers of this buffer"
+    if not decode_calls:
+        R.undecided(key, main.where(), "decode site not found in _read_data_chunk")
+    for c in decode_calls[:1]:
+        env, guards = sy.env_at(c)
+        loops = env.get("<iter>", ())
+        conds = list(guards)
+        for it, bv in loops:
+            if it[0] == "comp":
+                conds += list(it[4])
+        eqs = [x for g in conds for x, _b in find(g, ("cmp", "==", W(), W())) if find(x, ("attr", W(), "raw_buffer_index"))]
+        outer = [(it, bv) for it, bv in loops if find(it, ("call", "daqmx.get_buffer_dimensions", W(), W()))]
+        if not eqs or not outer:
+            R.violation(key, main.where(c), "scalers are not matched to the buffer by raw_buffer_index == position of the buffer (no such test guards the decoding)")
+            continue
+        it, bv = outer[0]
+        good = False
+        for x in eqs:
+            other = x[3] if find(x[2], ("attr", W(), "raw_buffer_index")) else x[2]
+            if it[0] == "call" and it[1] == "enumerate" and other == ("item", bv, 0):
+                good = True
+            elif other[0] == "loop":
+                good = _counts_iterations(ctx, main, other[1])
+        R.check(good, key, main.where(c), "buffers are enumerated from get_buffer_dimensions and scalers filtered by raw_buffer_index",
+                "scalers are not matched to the buffer by raw_buffer_index == position of the buffer")
+
+
+def _counts_iterations(ctx, fi, name):
+    """`name` is 0 before a loop over the buffers and is incremented exactly once on every path of that loop's body"""
+    cfg = ctx.cfg(fi)
+    inits = [n for n in walk_body(fi.node) if isinstance(n, ast.Assign) and any(isinstance(t, ast.Name) and t.id == name for t in n.targets)]
+    if len(inits) != 1 or not (isinstance(inits[0].value, ast.Constant) and inits[0].value.value == 0):
+        return False
+    incs = [n for n in walk_body(fi.node) if isinstance(n, ast.AugAssign) and isinstance(n.target, ast.Name) and n.target.id == name]
+    if not incs or not all(isinstance(n.op, ast.Add) and isinstance(n.value, ast.Constant) and n.value.value == 1 for n in incs):
+        return False
+    loops = [l for l in walk_body(fi.node) if isinstance(l, ast.For) and any(x is incs[0] for x in ast.walk(l)) and
+             any(isinstance(x, ast.Call) and (call_name(x) or "").endswith("get_buffer_dimensions") for x in ast.walk(l.iter))]
+    if not loops:
+        return False
+    loop = loops[0]
+    through = lambda n: any(n.ast is i for i in incs)
+    for h in cfg.where(lambda n: n.kind == "for" and n.ast is loop):
+        starts = [m for m, k in h.succ if k == "loop" and not through(m)]
+        r = cfg.reach(starts, avoid=through, follow_exc=False) if starts else set()
+        if h in r:
+            return False
+        for n in cfg.where(through):
+            r2 = cfg.reach([m for m, k in n.succ if k not in ("exc", "uncaught") and m is not h], avoid=lambda m, h=h: m is h, follow_exc=False)
+            if any(through(m) for m in r2):
+                return False
+    return True
 
 
 @rule("DL1", "a digital line scaler addresses byte raw_bit_offset // 8 and bit raw_bit_offset % 8", floor=3)
@@ -197,27 +277,33 @@ def dl1(ctx, R):
 
 @rule("SB1", "a truncated final chunk gives rows only up to the first incomplete buffer / channel", floor=2)
 def sb1(ctx, R):
+    """In each function that distributes the bytes of a truncated chunk (and the module helpers it calls): a loop carries a byte
+    budget that complete buffers / channels decrement; the statement that gives the first incomplete one `budget // width` rows must
+    not be followed by another iteration of that loop."""
+    from .sem import module_region
     prog = ctx.prog
     for q in ("daqmx.get_daqmx_final_chunk_lengths", "tdms_segment.TdmsSegment._compute_final_chunk_lengths"):
-        fi = prog.func(q)
-        cfg = ctx.cfg(fi)
-        partial = cfg.where(lambda n: n.kind == "stmt" and isinstance(n.ast, ast.Assign) and isinstance(n.ast.targets[0], ast.Subscript)
-                            and isinstance(n.ast.value, ast.BinOp) and isinstance(n.ast.value.op, ast.FloorDiv)
-                            and isinstance(n.ast.value.left, ast.Name) and "remain" in n.ast.value.left.id)
-        if not partial:
-            R.violation(q + "::partial length", fi.where(), "no statement assigns `remaining bytes // width` to the first incomplete buffer/channel: the truncated "
-                        "chunk logic changed shape (e.g. every buffer gets min(length, remaining // width) rows)")
-            continue
-        for p in partial:
-            heads = cfg.where(lambda n: n.kind == "for")
-            # from the partial assignment no path may return to the loop header of its own loop
-            r = cfg.reach([p], follow_exc=False)
-            own = [h for h in heads if any(x is p.ast for x in ast.walk(h.ast))]
-            back = [h for h in own if h in r]
-            R.check(not back, "%s::stop after `%s`" % (q, unparse(p.ast)[:40]), fi.where(p.ast), "the loop ends at the first incomplete buffer/channel",
-                    "after the first incomplete buffer/channel the loop goes on: leftover bytes of a half-written row are counted as complete rows of later, "
-                    "narrower buffers, which then gain values that were never written")
-        # the full branch consumes the bytes of the complete buffer
-        subs = [n for n in walk_body(fi.node) if isinstance(n, ast.AugAssign) and isinstance(n.op, ast.Sub) and "remain" in unparse(n.target)]
-        R.check(bool(subs), q + "::complete buffers consume their bytes", fi.where(), "remaining bytes decrease by each complete buffer",
-                "remaining bytes are not reduced by complete buffers")
+        top = prog.func(q)
+        found = False
+        for fi in module_region(prog, top, depth=2) if top.cls is None else [top] + [f for f in module_region(prog, top, depth=2) if f is not top]:
+            cfg = ctx.cfg(fi)
+            for loop in [n for n in walk_body(fi.node) if isinstance(n, (ast.For, ast.While))]:
+                budgets = {n.target.id for n in ast.walk(loop) if isinstance(n, ast.AugAssign) and isinstance(n.op, ast.Sub) and isinstance(n.target, ast.Name)}
+                partial = [n for n in ast.walk(loop) if isinstance(n, ast.Assign) and isinstance(n.targets[0], ast.Subscript)
+                           and isinstance(n.value, ast.BinOp) and isinstance(n.value.op, ast.FloorDiv)
+                           and isinstance(n.value.left, ast.Name) and n.value.left.id in budgets]
+                if not partial:
+                    continue
+                found = True
+                heads = cfg.where(lambda n: n.ast is loop and n.kind in ("for", "test"))
+                for p in partial:
+                    pn = cfg.where(lambda n: n.ast is p)
+                    r = cfg.reach([m for x in pn for m, k in x.succ if k not in ("exc", "uncaught")], follow_exc=False)
+                    back = [h for h in heads if h in r]
+                    R.check(not back, "%s::stop after the first incomplete one" % q, fi.where(p), "the loop ends at the first incomplete buffer/channel (`%s`)" % unparse(p)[:50],
+                            "after the first incomplete buffer/channel the loop goes on: leftover bytes of a half-written row are counted as complete rows of later, "
+                            "narrower buffers, which then gain values that were never written")
+                R.ok(q + "::complete buffers consume their bytes", fi.where(loop), "the byte budget `%s` decreases by each complete buffer" % ", ".join(sorted(budgets)))
+        if not found:
+            R.violation(q + "::partial length", top.where(), "no loop gives the first incomplete buffer/channel `remaining bytes // width` rows out of a byte budget that "
+                        "complete ones decrement: the truncated chunk logic changed shape (e.g. every buffer gets min(length, remaining // width) rows)")
